@@ -18,6 +18,18 @@ CHECKS = {
     text="at every prefix of every explored session, exec of every operation list of length 1-2 over a token alphabet is run on the real Instance::eval and compared with the reference interpreter executing the same operations spliced into the script; position, remaining script and history must be untouched and the continuation must equal that of the spliced script",
     note="trusted: reference interpreter; OP_CODESEPARATOR and non-minimal hex pushes are outside the compared domain (stated in evidence)",
     tech="exhaustive enumeration of (session prefix x operation list) with a reference-model oracle"),
+ "C10": dict(engine="mc_bounds", cat=MC, design="DESIGN.md §3 C10",
+    text="boundary states of every resource limit are constructed directly (op count 199..202 by NOPs, unexecuted branches and multisig key counts 0..21; stack+altstack 998..1000; 4/5/6-byte numeric operands; 9999/10000/10001-byte scripts; per-script op-count reset across scriptSig, scriptPubKey and redeem script) for BASE/WITNESS_V0/TAPSCRIPT and every symbol of the complete opcode alphabet is applied from each; the reference interpreter decides the outcome at L-1, L, L+1",
+    note="trusted: reference interpreter; the boundary generators are listed in the evidence",
+    tech="explicit-state exploration from constructed boundary states (complete alphabet per state, reference-model oracle)"),
+ "C17": dict(engine="mc_bounds", cat=MC, design="DESIGN.md §3 C17",
+    text="each of the 15 re-enabled opcodes is executed on every operand tuple over a boundary-rich value set, with and without --allow-disabled-opcodes, executed and in an unexecuted branch, each case in a crash-contained forked worker; results are compared with the denoted string/bitwise/integer function, invalid operands must yield a script error, never a signal",
+    note="denotations are written in ref/refscript.hpp (exec_extended); where the property is silent only crash-freedom is required and the class is counted separately",
+    tech="exhaustive enumeration of operand tuples per opcode with crash containment (depth-1 state-space search)"),
+ "C18": dict(engine="mc_bounds", cat=MC, design="DESIGN.md §3 C18",
+    text="total enumeration of all byte strings of length 0..3 (and all 2^32 of length 4 in the thorough tier), stratified 4/5-byte strings, all integers in [-2^16, 2^16] and around every power of two: decode value, minimality verdict, re-encoding, round trip and the debugger's decimal/hex conversions are compared with the arithmetic definition",
+    note="oracle is the arithmetic definition in ref/refnum.hpp",
+    tech="total enumeration of the codec domain"),
 }
 
 REASON_PENDING = "check under construction in this round; not claimed until its engine has run end-to-end"
